@@ -24,6 +24,7 @@ func checkC06(c *Ctx) {
 	c.Rule("C06/R7", "grammar ↔ operators: OR builds OpOr, juxtaposition/AND builds OpAnd, '-' builds OpNot with one child, '*' builds OpAnd without children, key:(a OR b) builds OpOr of matches")
 	c.Rule("C06/R8", "extractor results are views into the Result: they are consumed immediately (matched, converted to string, interned) and never stored in state that outlives the call")
 
+	c.Rule("C06/R11", "leaf verdict: FilterMatch.Match/MatchString return the regexp's verdict on the whole value when the term is a regexp and equality with the literal otherwise; no other property of the value (such as being empty because the key is absent) decides")
 	c.Rule("C06/R10", "what a /key term is matched against: the sub-name lookup scans all parts of the name in order and takes the first part carrying the key (same rule as C05/R4)")
 	c.Rule("C06/R9", "no stale verdicts: any cache inside the filter's compiled closures and the functions they call is keyed by every input of the cached value (a per-filter memo keyed by the base unit alone would hand a later measurement with another written unit the first one's verdict); today there is none, and the detector is shown to work on the unit-tidying cache")
 	p := mustLoad(c, loadOpts{}, "./benchproc", "./benchproc/internal/parse", "./benchfmt", "./benchunit", "./benchmath")
@@ -36,6 +37,7 @@ func checkC06(c *Ctx) {
 	c06Grammar(c, p)
 	c06Views(c, p)
 	c06Memo(c, p)
+	c06Leaf(c, p)
 	c05Lookup(c, p, "C06/R10")
 }
 
@@ -1030,22 +1032,33 @@ func c06Apply(c *Ctx, p *Prog) {
 		return
 	}
 	lp := loops[0]
-	var jPhi *ssa.Phi
-	var iVal ssa.Value
+	// the write index is the loop variable the result is cut to after the loop; the read index is the other one
+	var jPhi, iPhi *ssa.Phi
+	var ints []*ssa.Phi
 	for _, in := range lp.Header.Instrs {
 		if phi, ok := in.(*ssa.Phi); ok && isInteger(phi.Type()) {
-			if phi.Comment == "rangeindex" {
-				for _, r := range *phi.Referrers() {
-					if bo, ok := r.(*ssa.BinOp); ok && bo.Op == token.ADD {
-						iVal = bo
-					}
-				}
-			} else {
-				jPhi = phi
-			}
+			ints = append(ints, phi)
 		}
 	}
-	if jPhi == nil || iVal == nil {
+	eachInstr(fn, func(b *ssa.BasicBlock, in ssa.Instruction) {
+		if st, ok := in.(*ssa.Store); ok && !lp.Blocks[b] {
+			if f, _ := fieldOfAddr(st.Addr); f == valuesF {
+				if sl, ok := st.Val.(*ssa.Slice); ok && sl.Low == nil {
+					for _, phi := range ints {
+						if sl.High == phi {
+							jPhi = phi
+						}
+					}
+				}
+			}
+		}
+	})
+	for _, phi := range ints {
+		if phi != jPhi {
+			iPhi = phi
+		}
+	}
+	if jPhi == nil || iPhi == nil || len(ints) != 2 {
 		c.Undecided(R, "Apply:indices", site, "read/write indices not recognised")
 		return
 	}
@@ -1070,11 +1083,31 @@ func c06Apply(c *Ctx, p *Prog) {
 			}
 			_ = k
 		}
-		if test == nil {
-			c.Undecided(R, "Apply:atoms", site, "the compaction does not consult Test")
-			return
+		if o.Term != "exit" || o.Exit != lp.Header {
+			continue // leaves the loop
 		}
 		n++
+		var iNext *Sym
+		plusOne := false
+		for j, pr := range lp.Header.Preds {
+			if pr == o.ExitFrom {
+				iNext = o.Val(iPhi.Edges[j])
+				// range loops compute index+1 in the loop head: recognise it on the SSA value itself
+				if bo, ok := iPhi.Edges[j].(*ssa.BinOp); ok && bo.Op == token.ADD && bo.X == iPhi {
+					if k, ok := constInt(bo.Y); ok && k == 1 {
+						plusOne = true
+					}
+				}
+			}
+		}
+		if b, off, ok := linDecomp(iNext); !plusOne && (!ok || b == nil || b.String() != o.Val(iPhi).String() || off != 1) {
+			c.Bad(R, fmt.Sprintf("Apply:read-index#%d", n), site, "on some path the read index does not advance by exactly one ("+truncate(iNext.String(), 80)+" when "+truncate(o.AssignStr(), 120)+"): measurements are skipped without being tested, so a matching measurement can be dropped")
+			continue
+		}
+		if test == nil {
+			c.Bad(R, fmt.Sprintf("Apply:untested#%d", n), site, "an iteration path does not ask Test about the visited measurement ("+truncate(o.AssignStr(), 120)+")")
+			continue
+		}
 		var store *e6Action
 		for i := range o.Actions {
 			if o.Actions[i].Kind == "store" && o.Actions[i].Args[0].Op == "indexaddr" && o.Actions[i].Args[0].Args[0].IsFieldLoad(valuesF) {
@@ -1088,10 +1121,20 @@ func c06Apply(c *Ctx, p *Prog) {
 			}
 		}
 		jCur := o.Val(jPhi)
-		iCur := o.Val(iVal)
+		iCur := testArg
 		key := fmt.Sprintf("Apply[Test(i)=%v]", *test)
 		var errs []string
-		if testArg == nil || testArg.String() != iCur.String() {
+		visited := false
+		if b, off, ok := linDecomp(iCur); ok && b != nil && b.String() == o.Val(iPhi).String() && off == 0 {
+			visited = true
+		}
+		for j := range lp.Header.Preds {
+			// range loops: the element index is the head's index+1
+			if bo, ok := iPhi.Edges[j].(*ssa.BinOp); ok && iCur.String() == o.Val(bo).String() {
+				visited = true
+			}
+		}
+		if !visited {
 			errs = append(errs, "Test is not asked about the element being visited")
 		}
 		if *test {
@@ -1152,6 +1195,20 @@ func c06Conjoin(c *Ctx, p *Prog, R string) {
 	n := 0
 	for _, st := range storesToField(fn, matchF) {
 		n++
+		// the caller's filter is touched only once the whole expression is known to be valid: no error return is
+		// reachable after the store
+		errAfter := false
+		for b := range reachFrom(st.Block(), nil) {
+			ret, ok := b.Instrs[len(b.Instrs)-1].(*ssa.Return)
+			if !ok || len(ret.Results) == 0 {
+				continue
+			}
+			if k, isK := retLast(ret).(*ssa.Const); !isK || !k.IsNil() {
+				errAfter = true
+			}
+		}
+		c.Check(!errAfter, R, fmt.Sprintf("Parse:filter-store#%d:after-validation", n), p.pos(st.Pos()), "the caller's filter is changed only after the whole projection was validated",
+			"the caller's filter is narrowed before the rest of the expression has been validated: when a later field is rejected, Parse returns an error but the filter stays restricted to the earlier field's value list for every later use")
 		call, ok := st.Val.(*ssa.Call)
 		okOp, okKeep := false, false
 		if ok && call.Call.StaticCallee() == fo {
@@ -1372,4 +1429,55 @@ func evalBoolOnce(s *Sym, decide func(*Sym) (bool, bool)) (bool, bool) {
 		return decide(s)
 	}
 	return false, false
+}
+
+// c06Leaf: the leaf test of a filter: with a regexp the verdict is the regexp's on the whole value (also the empty
+// value of an absent key: ^$, .*, (x)? match it), without one it is equality with the literal; nothing else about
+// the value decides.
+func c06Leaf(c *Ctx, p *Prog) {
+	const R = "C06/R11"
+	n := 0
+	for _, name := range []string{"Match", "MatchString"} {
+		fn := p.Method("benchproc/internal/parse", "FilterMatch", name)
+		if fn == nil {
+			c.Undecided(R, "anchor:FilterMatch."+name, "", "not found")
+			continue
+		}
+		site := p.pos(fn.Pos())
+		mk := func() *e6Interp { return &e6Interp{PureCall: func(f *types.Func) bool { return true }} }
+		outs, why := e6Enumerate(mk, fn.Blocks[0], nil, nil, 256)
+		if why != "" {
+			c.Undecided(R, "FilterMatch."+name, site, why)
+			continue
+		}
+		for _, o := range outs {
+			if o.Term != "return" || len(o.Results) != 1 {
+				continue
+			}
+			n++
+			hasRe := "?"
+			other := ""
+			for k, v := range o.Assign {
+				s := o.AtomSyms[k]
+				if s.Op == "binop" && (s.Tok == token.EQL || s.Tok == token.NEQ) && strings.Contains(s.Args[0].String(), ".Regexp") && s.Args[1].isConst() && s.Args[1].IsNil {
+					hasRe = fmt.Sprint(v == (s.Tok == token.NEQ))
+					continue
+				}
+				other = k
+			}
+			res := o.Results[0].String()
+			key := fmt.Sprintf("FilterMatch.%s[regexp=%s]#%d", name, hasRe, n)
+			switch {
+			case other != "":
+				c.Bad(R, key, site, "the leaf verdict depends on "+truncate(other, 100)+", not only on whether the term is a regexp: for a result that lacks the key (empty value) a regexp that matches the empty string — /^(1)?$/, /^$/, /.*/ — gets the wrong verdict, so terms over optional keys select the wrong results")
+			case hasRe == "true":
+				c.Check(strings.Contains(res, "regexp.Regexp).Match") && strings.Contains(res, "param:value"), R, key, site, "a regexp term is decided by the regexp on the value", "a regexp term is not decided by matching the regexp against the value: "+truncate(res, 100))
+			case hasRe == "false":
+				c.Check(strings.Contains(res, ".Lit") && strings.Contains(res, "param:value") && strings.Contains(res, "=="), R, key, site, "a literal term is decided by equality with the value", "a literal term is not decided by equality of the literal and the value: "+truncate(res, 100))
+			default:
+				c.Bad(R, key, site, "the leaf does not distinguish regexp terms from literal terms")
+			}
+		}
+	}
+	c.Floor(R, "leaf verdict paths", n, 4)
 }
